@@ -20,7 +20,7 @@
   cubed/primitive/blockwise.py  ChunkKeys.__iter__                `product`, `chunkKeys`
   cubed/primitive/blockwise.py  product_from / ChunkKeys.range    `digitsR`, `incr`, `productFrom`, `chunkKeysRange`
   general_blockwise  num_tasks = prod(len(c) for c in chunks)     `numTasks`
-  cubed/core/ops.py _store_array (region): num_tasks=              `regionAdvertised` (source.npartitions) vs
+  cubed/core/ops.py _store_array (region): num_tasks=              `regionRechunked`, `regionAdvertised` (npartitions) vs
     source.npartitions, output_blocks=OutputBlocksIterable           `regionReal` (blocks of the target met by the region)
   FinalizedPlan._calculate_stats  _num_tasks += op.num_tasks      `planTotal`
 
@@ -326,10 +326,26 @@ def axisBlocks (len c : Nat) : Nat := (len + c - 1) / c
 enumerates along one axis (the task iterable of a region store) -/
 def regionAxisBlocks (start stop tc : Nat) : Nat := (stop + tc - 1) / tc - start / tc
 
-/-- `_store_array` with a region: advertised `num_tasks = source.npartitions`; axes are
-`(start, stop, source chunk, target chunk)` -/
-def regionAdvertised (axes : List (Nat × Nat × Nat × Nat)) : Nat :=
+/-- `source.npartitions` for a source chunked `sc` along each axis; axes are
+`(start, stop, source chunk, target chunk)`.  This is what `_store_array` advertised before the fix
+(repository commit ba97b91) — kept to document what the fix repaired. -/
+def regionAdvertisedOld (axes : List (Nat × Nat × Nat × Nat)) : Nat :=
   numTasks (axes.map fun a => axisBlocks (a.2.1 - a.1) a.2.2.1)
+
+/-- `_store_array` (region), after ba97b91: `region_chunksize = to_chunksize(normalize_chunks(target
+chunks, source.shape))` is `min tc len` per axis; `if array_size(source.shape) > 0 and
+source.chunksize != region_chunksize: source = source.rechunk(region_chunksize)`. -/
+def regionRechunked (axes : List (Nat × Nat × Nat × Nat)) : List (Nat × Nat × Nat × Nat) :=
+  let empty := axes.any (fun a => a.2.1 - a.1 == 0)
+  let have_ := axes.map (fun a => min a.2.2.1 (a.2.1 - a.1))
+  let want := axes.map (fun a => min a.2.2.2 (a.2.1 - a.1))
+  if !empty && have_ != want then
+    axes.map (fun a => (a.1, a.2.1, min a.2.2.2 (a.2.1 - a.1), a.2.2.2))
+  else axes
+
+/-- advertised `num_tasks = source.npartitions`, taken after the inserted rechunk -/
+def regionAdvertised (axes : List (Nat × Nat × Nat × Nat)) : Nat :=
+  regionAdvertisedOld (regionRechunked axes)
 
 /-- … and the number of tasks actually in the iterable (`OutputBlocksIterable`) -/
 def regionReal (axes : List (Nat × Nat × Nat × Nat)) : Nat :=
